@@ -565,3 +565,24 @@ Lemma short_cue_sami_end_refuted :
 Proof.
   exists [(1000, 1400); (3000, 4000)]. split; [reflexivity|]. vm_compute. discriminate.
 Qed.
+
+Lemma cues_eqb_refl : forall a, cues_eqb a a = true.
+Proof.
+  intros a. unfold cues_eqb. rewrite Nat.eqb_refl. cbn [andb].
+  induction a as [|c t IH]; [reflexivity|]. cbn [combine forallb fst snd]. rewrite !Z.eqb_refl, IH. reflexivity.
+Qed.
+
+Lemma cues_close_refl : forall u a, cues_close u a a = true.
+Proof.
+  intros u a. unfold cues_close. rewrite Nat.eqb_refl. cbn [andb].
+  induction a as [|c t IH]; [reflexivity|]. cbn [combine forallb fst snd]. rewrite !Z.eqb_refl, IH. reflexivity.
+Qed.
+
+(* the chain of model hops, run twice, satisfies the property oracle on the whole domain *)
+Theorem run_model_meets_oracle : forall chain cs, chain_dom chain cs = true ->
+  ok_chain chain cs (run_model chain cs) (do o1 <- run_model chain cs; Ok (run chain o1)) = true.
+Proof.
+  intros chain cs D. rewrite run_model_exact by exact D. cbn [bind]. unfold ok_chain.
+  rewrite cues_close_refl. cbn [andb].
+  rewrite <- run_closed_form. rewrite chain_fixpoint. apply cues_eqb_refl.
+Qed.
